@@ -161,6 +161,15 @@ def crash_class(rc, err):
     return kind + '@' + frame
 
 def main():  # noqa
+    # scratch files of the simulated disk live under one directory per driver invocation, removed on exit even when workers died
+    import atexit, shutil
+    root = '/dev/shm/lsci-verif-%d' % os.getpid()
+    os.makedirs(root, exist_ok=True)
+    os.environ['SIM_SCRATCH_ROOT'] = root
+    atexit.register(shutil.rmtree, root, True)
+    return main_()
+
+def main_():  # noqa
     if len(sys.argv) >= 3 and sys.argv[1] == '--replay':
         return replay_file(sys.argv[2])
     pid, tier = sys.argv[1], (sys.argv[2] if len(sys.argv) > 2 else os.environ.get('VERIF_TIER', 'quick'))
